@@ -51,15 +51,26 @@ Theorem C04_dec_enc_fs :
 Proof. exact dec_enc_fs. Qed.
 Print Assumptions C04_dec_enc_fs.
 
-(* NOT PROVED for all inputs (evaluated on every generated case instead, on the implementation's document and on the
-   model's — check_doc_ok in CorrC04.v):
-     doc_ok_save_xmi (doc_ids_distinct + doc_refs_resolve):
+(* doc_ids_distinct: in the written document cas:NULL has id 0 and the xmi:ids of all elements that carry one (NULL, feature
+   structures, sofas) are pairwise distinct; they are exactly 0, the ids of the structures written and the sofa ids. *)
+Theorem C04_doc_ids_distinct :
+  forall (fmt : flt -> string) s c all d,
+  wf_xmib s c all = true -> write_doc fmt s c all = Ok d ->
+  exists idl, mapM x_id (filter (fun e => negb (is_view e)) d) = Ok idl /\ NoDup idl
+              /\ Permutation idl (0 :: map fst all ++ map (fun v => s_xid (v_sofa v)) (c_views c))
+              /\ mapM x_id (filter is_null d) = Ok [0].
+Proof. exact doc_ids_distinct. Qed.
+Print Assumptions C04_doc_ids_distinct.
+
+(* NOT PROVED for all inputs (evaluated on every generated case instead, on the implementation's document —
+   check_doc_ok in CorrC04.v — and on the example below):
+     doc_refs_resolve / doc_ok_save_xmi:
        save_xmi fmt s c = Ok (d, c') -> (forall all, written s c = Ok (c', all) -> wf_xmib s c' all = true) ->
        doc_ok_xmi parse s d = true.
    wf_xmib carries the set-level facts about `all` (ids distinct and apart from the sofa ids and 0, every reference /
    element / member / sofa array is in `all`) as boolean premises; that they follow from the traversal is Reach's
    find_all_each_once / find_all_closed (ReachProofs, other builder).  What is missing here is the bookkeeping that the
-   canonical content is total (canon_of = Ok) and that its references are those checked by ref_okb. *)
+   canonical content is total (canon_of = Ok under wf_xmib) and that the references it mentions are those ref_okb checked. *)
 
 (* non-vacuity: the example CAS (two views, astral text, cycle, inline FSArray with a null element, shared FSArray, empty
    inline StringList, referenced-only annotation, colliding package suffixes) satisfies the premises; the model writes the
